@@ -129,6 +129,14 @@ where
         }
     }
 
+    /// Verification hook (off unless built with `--cfg dicom_verif`):
+    /// public access to the crate-private constructor,
+    /// so that the writer can be driven over a scripted transport.
+    #[cfg(dicom_verif)]
+    pub fn new_for_verif(stream: W, presentation_context_id: u8, max_pdu_length: u32) -> Self {
+        Self::new(stream, presentation_context_id, max_pdu_length)
+    }
+
     /// Declare to have finished sending P-Data fragments,
     /// thus emitting the last P-Data fragment PDU.
     ///
@@ -474,6 +482,14 @@ pub mod non_blocking {
                 buffer,
                 state: WriteState::Ready,
             }
+        }
+
+        /// Verification hook (off unless built with `--cfg dicom_verif`):
+        /// public access to the crate-private constructor,
+        /// so that the writer can be driven over a scripted transport.
+        #[cfg(dicom_verif)]
+        pub fn new_for_verif(stream: W, presentation_context_id: u8, max_pdu_length: u32) -> Self {
+            Self::new(stream, presentation_context_id, max_pdu_length)
         }
 
         /// Declare to have finished sending P-Data fragments,
